@@ -39,7 +39,7 @@ import shutil
 import sys
 import tempfile
 
-from qstatic.effects import (EffectsEngine, rng_sites, time_taint, is_static, is_classmethod, Resolver,
+from qstatic.effects import (EffectsEngine, rng_sites, module_rng_sites, time_taint, is_static, is_classmethod, Resolver,
                              LIB_VIEW, LIB_INPLACE, METHOD_MUTATES, METHOD_VIEW)
 from qstatic.src import AnalysisError, Program
 
@@ -188,7 +188,16 @@ def check_d1_d2(ctx, prog, eng, scope):
             if not st and not glob_effs:
                 ctx.ob(R1, f"{fi.where}: no store to module / class state", True, where=fi.where, loc=fi.loc())
             for (kind, name, via, loc) in st:
-                what = {"global-rebind": f"global statement re-binds module variable {name.split(':')[-1]!r}",
+                if kind == "global-retains-param":
+                    g, _, ps = name.partition("<-")
+                    what = (f"module global {g.split(':')[-1]!r} retains a reference to parameter(s) {ps}: the argument "
+                            f"escapes into state that outlives the call")
+                    ctx.ob(R1, f"{fi.where}: {what}", False,
+                           "a later call can observe (and is affected by in-place edits of) an earlier call's argument",
+                           where=fi.where, construct=what, loc=loc)
+                    continue
+                what = {"global-rebind": f"store to module global {name.split(':')[-1]!r} (declared global): hidden "
+                                         f"cross-call state",
                         "module-global": f"module-level object {name.split(':')[-1]!r} written in place",
                         "module-attribute": f"attribute of module written: {name}",
                         "class-attribute": f"class attribute written: {name}"}.get(kind, f"{kind} {name}")
@@ -200,7 +209,12 @@ def check_d1_d2(ctx, prog, eng, scope):
             # module-level objects written in place arrive as effects on ("global", ...) origins
             for e in glob_effs:
                 if True:
-                    what = f"module-level object {e.origin[1].split(':')[-1]!r} written in place ({_kind_text(e.kind, e.via)})"
+                    gname = e.origin[1].split(':')[-1]
+                    if e.kind.startswith("generator draw"):
+                        what = (f"module-level random generator {gname!r} is drawn from inside the function "
+                                f"({e.kind}): the stream is shared across calls")
+                    else:
+                        what = f"module-level object {gname!r} written in place ({_kind_text(e.kind, e.via)})"
                     ctx.ob(R1, f"{fi.where}: {what}", False,
                            "module-level state is written: results depend on the call history",
                            where=fi.where, construct=what, loc=e.loc)
@@ -216,6 +230,8 @@ def check_d1_d2(ctx, prog, eng, scope):
                 for e in effs:
                     attr = e.origin[2] or "<object>"
                     what = f"store to self.{attr}" + (f" through {e.via}" if e.via else "")
+                    if e.kind.startswith("generator draw"):
+                        what = f"generator self.{attr} is drawn from ({e.kind}): its stream carries over between calls"
                     ctx.ob(R1, f"{fi.where}: {what}", False,
                            f"method writes solver state ({e.kind}); a reused object then differs from a fresh one",
                            where=fi.where, construct=what, loc=e.loc)
@@ -298,6 +314,19 @@ def check_d3(ctx, prog, eng, scope):
                 ctx.ob(R3, f"{fi.where}: {s.form} - {s.why}", s.ok,
                        f"random numbers outside the RNG discipline: {s.why}", where=fi.where, construct=s.form,
                        loc=fi.loc(s.node))
+    seen_mods = []
+    for fi in eng.universe:
+        if fi.module not in seen_mods:
+            seen_mods.append(fi.module)
+    for mod in seen_mods:
+        for s, bound in module_rng_sites(prog, mod):
+            n += 1
+            n_seed += s.kind == "seed"
+            n_ctor += s.kind == "ctor"
+            where = f"{mod.relpath}::<module>"
+            ctx.ob(R3, f"{where}: {s.form}" + (f" bound to {bound!r}" if bound else "") + f" - {s.why}", s.ok,
+                   f"random numbers outside the RNG discipline: {s.why}", where=where, construct=s.form,
+                   loc=f"{mod.relpath}:{s.node.lineno}")
     if n_seed < MIN_RNG_SEED or n_ctor < MIN_RNG_CTOR:
         raise AnalysisError(f"C14.D3: {n_seed} seed sites / {n_ctor} generator constructors found, fewer than "
                             f"{MIN_RNG_SEED} / {MIN_RNG_CTOR} confirmed by reading")
@@ -685,7 +714,42 @@ VARIANTS = [
     ("fallback binds the name from another module", "quatica/data_gen.py", r"    from decomp\.qsvd import qr_qua\n",
      "    from decomp.LU import quaternion_lu as qr_qua\n",
      ("F", R5, "data_gen.py::<module>", "qr_qua is decomp.qsvd.qr_qua in the package spelling but decomp.LU.quaternion_lu")),
+    ("module-level generator drawn inside a function (stream shared across calls)", "quatica/decomp/schur.py",
+     [r"def _estimate_shifts_power_deflate\(", r"    rng = np\.random\.default_rng\(0\)\n"],
+     ["_SHIFT_RNG = np.random.default_rng(0)\n\n\ndef _estimate_shifts_power_deflate(", "    rng = _SHIFT_RNG\n"],
+     ("F", R1, "_estimate_shifts_power_deflate", "module-level random generator '_SHIFT_RNG' is drawn from inside the function")),
+    ("module-level generator drawn directly (D3 names it too)", "quatica/decomp/schur.py",
+     [r"def _estimate_shifts_power_deflate\(", r"    rng = np\.random\.default_rng\(0\)\n", r"xr = rng\.standard_normal"],
+     ["_SHIFT_RNG = np.random.default_rng(0)\n\n\ndef _estimate_shifts_power_deflate(", "    rng = np.random.default_rng(0)\n",
+      "xr = _SHIFT_RNG.standard_normal"],
+     ("F", R3, "_estimate_shifts_power_deflate", "on the module-level generator '_SHIFT_RNG'")),
+    ("single-slot memo in a module global", "quatica/decomp/qsvd.py",
+     r"    return Uq, s_quat, Vq\n\n\ndef rand_qsvd\(",
+     "    global _last\n    if _last is not None and _last[0] is X_quat:\n        return _last[1]\n"
+     "    _last = (X_quat, (Uq, s_quat, Vq))\n    return Uq, s_quat, Vq\n\n\n_last = None\n\n\ndef rand_qsvd(",
+     ("F", R1, "classical_qsvd_full", "store to module global '_last' (declared global)")),
+    ("memo retains the argument", "quatica/decomp/qsvd.py",
+     r"    return Uq, s_quat, Vq\n\n\ndef rand_qsvd\(",
+     "    global _last\n    if _last is not None and _last[0] is X_quat:\n        return _last[1]\n"
+     "    _last = (X_quat, (Uq, s_quat, Vq))\n    return Uq, s_quat, Vq\n\n\n_last = None\n\n\ndef rand_qsvd(",
+     ("F", R1, "classical_qsvd_full", "module global '_last' retains a reference to parameter(s) X_quat")),
+    ("argument appended to a module-level list", "quatica/tensor.py",
+     r"def tensor_frobenius_norm\(T: np\.ndarray\) -> float:\n",
+     "_SEEN = []\n\n\ndef tensor_frobenius_norm(T: np.ndarray) -> float:\n    _SEEN.append(T)\n",
+     ("F", R1, "tensor_frobenius_norm", "module global '_SEEN' retains a reference to parameter(s) T")),
+    ("generator kept on self and drawn in a method", "quatica/solver.py",
+     [r"        self\.block_size = block_size\n", r"        real_part = np\.random\.randn\(rows, cols\)\n"],
+     ["        self.block_size = block_size\n        self._rng = np.random.default_rng(0)\n",
+      "        real_part = self._rng.standard_normal((rows, cols))\n"],
+     ("F", R1, "_generate_random_sketch", "generator self._rng is drawn from")),
     # ---- behaviour-preserving: must stay silent
+    ("module-level constants that are only read", "quatica/utils.py",
+     r"def quat_eye\(n: int\) -> np\.ndarray:\n",
+     "_UNITS = (\"real\", \"i\", \"j\", \"k\")\n_ORDER = {\"fro\": 0}\n_ONE = np.ones(1)\n\n\n"
+     "def quat_eye(n: int) -> np.ndarray:\n    n = n + 0 * len(_UNITS) + _ORDER.get(\"fro\", 0) + 0 * int(_ONE[0])\n", ("S",)),
+    ("per-call generator seeded from a module-level integer constant", "quatica/decomp/schur.py",
+     [r"def _estimate_shifts_power_deflate\(", r"    rng = np\.random\.default_rng\(0\)\n"],
+     ["_SHIFT_SEED = 0\n\n\ndef _estimate_shifts_power_deflate(", "    rng = np.random.default_rng(_SHIFT_SEED)\n"], ("S",)),
     ("bound-method alias (conditional expression of two methods)", "quatica/solver.py",
      r"        if m >= n:\n            # Use column variant for tall/square matrices\n            return self\.compute_column_variant\(A\)\n        else:\n            # Use row variant for wide matrices\n            return self\.compute_row_variant\(A\)\n",
      "        variant = self.compute_row_variant if m < n else self.compute_column_variant\n        return variant(A)\n", ("S",)),
